@@ -225,6 +225,7 @@ def layouts(fdefs, cst):
         if top not in frags:
             raise ExtractError("no top-level fragment for " + top)
         lists = []
+        hands = []
 
         def walk(fid, off, path):
             """returns offset after the fragment, or None when variable; records list nodes"""
@@ -264,12 +265,15 @@ def layouts(fdefs, cst):
             if k == "grid16":
                 b = bits_of(n["elem"])
                 return None if (off is None or b is None) else off + 16 * b
-            if k in ("msm_seg", "hand", "msm_sat", "msm_sig", "vec"):
+            if k in ("hand", "msm_seg"):
+                hands.append({"name": n.get("name", "msm_seg"), "off": off, "path": ".".join(path)})
+                return None
+            if k in ("msm_sat", "msm_sig", "vec"):
                 return None
             raise ExtractError("unhandled node kind " + k)
 
         end = walk(top, 12, [])
-        table.append({"number": num, "lists": lists, "fixed_bits": end,
+        table.append({"number": num, "lists": lists, "hands": hands, "fixed_bits": end,
                       "kind": frags[top]["kind"], "msm": any(frags.get(f, {}).get("kind") == "msm_seg" for _, f in frags[top].get("fields", []))})
     if len(table) < 100:
         raise ExtractError("only %d messages found" % len(table))
@@ -325,6 +329,7 @@ def emit_fields_tla(fdefs, path):
          "(* One record per df! invocation: width, integer kind, carrier, float type,     *)\n"
          "(* the 'absent' pattern (inv) as a w-bit sequence, whether encode rounds,       *)\n"
          "(* whether the field is scaled, and the bit length of |bias/res|.               *)\n"
+         "EXTENDS Integers\n"
          "FieldTable == <<\n" + ",\n".join(rows) + "\n>>\n"
          "=============================================================================\n")
     write_if_changed(path, s)
@@ -337,12 +342,19 @@ def emit_layouts_tla(table, path):
             rows.append('  [number |-> %d, path |-> "%s", kind |-> "%s", countoff |-> %d, countbits |-> %d, cap |-> %d, elembits |-> %d, elemsoff |-> %d]'
                         % (t["number"], L["path"], L["kind"], -1 if L["count_off"] is None else L["count_off"], L["count_bits"], L["cap"],
                            -1 if L["elem_bits"] is None else L["elem_bits"], -1 if L["elems_off"] is None else L["elems_off"]))
+    hrows = []
+    for t in table:
+        for h in t.get("hands", []):
+            hrows.append('  [number |-> %d, name |-> "%s", off |-> %d]' % (t["number"], h["name"], -1 if h["off"] is None else h["off"]))
     s = ("------------------------------ MODULE Layouts ------------------------------\n"
          "(* GENERATED by tools/extract.py from /repo/src/msg/msg*.rs -- do not edit.    *)\n"
          "(* One record per count-prefixed list or string: payload bit offset and width *)\n"
          "(* of the count field, capacity, element width, offset of the first element   *)\n"
          "(* (-1: not at a fixed position / variable).                                  *)\n"
+         "EXTENDS Integers\n"
          "ListTable == <<\n" + ",\n".join(rows) + "\n>>\n"
+         "(* payload bit offset of hand-written fragments (text, bias lists) and MSM data segments *)\n"
+         "HandTable == <<\n" + ",\n".join(hrows) + "\n>>\n"
          "=============================================================================\n")
     write_if_changed(path, s)
 
@@ -354,6 +366,7 @@ def emit_gates_tla(g, path):
     ul = ",\n".join('  [number |-> %d, uses |-> {%s}]' % (k, ", ".join('"%s"' % u for u in v)) for k, v in sorted(g["uses"].items()))
     s = ("------------------------------- MODULE Gates -------------------------------\n"
          "(* GENERATED by tools/extract.py from Cargo.toml, src/msg/mod.rs, src/msg/message.rs, src/msg/msg*.rs *)\n"
+         "EXTENDS Integers\n"
          "Features == %s\nAllMsgs == %s\nIncludes == %s\n" % (st(g["features"]), st(g["all_msgs"]), st(g["includes"]))
          + "IncludePairs == {%s}\n" % ", ".join("<<%d, %d>>" % (a, b) for a, b in g["include_pairs"])
          + "TableRows == {%s}\n" % ", ".join("<<%d, %d, %d, %d>>" % tuple(r) for r in g["rows"])
@@ -405,6 +418,9 @@ def pinned_checks(fdefs, table, cst):
     l1057 = t[1057]["lists"]
     if not (len(l1057) == 1 and l1057[0]["count_bits"] == 6 and l1057[0]["elem_bits"] == 135):
         raise ExtractError("pinned fact failed: 1057 satellite block is 135 bits behind a 6-bit count: %s" % l1057)
+    h1074 = t[1074]["hands"]
+    if not (len(h1074) == 1 and h1074[0]["off"] == 73):
+        raise ExtractError("pinned fact failed: MSM header is 73 bits before the satellite mask: %s" % h1074)
 
 
 def run():
